@@ -609,6 +609,58 @@ def process_soak(ctx, res, seconds=6.0):
     res.extra['process_soak_critical_sections'] = total
 
 
+def forked_holders(ctx, res):
+    """Separate processes forked AFTER the lock object was built (the usual way a worker pool shares a
+    recipe object): child A acquires and holds; child B then tries to acquire.  B reporting success while A
+    still holds is a violation under every timing (B is expected to block; it is killed after a grace period,
+    so a slow machine can only hide a violation, never produce one)."""
+    import multiprocessing as mp
+    import time as _t
+    checked = 0
+    for kind in ('lock', 'rlock', 'sem'):
+        d = ctx.scratch('c15f')
+        cache = diskcache.Cache(d, eviction_policy='none')
+        obj = {'lock': lambda: diskcache.Lock(cache, 'FL'), 'rlock': lambda: diskcache.RLock(cache, 'FL'),
+               'sem': lambda: diskcache.BoundedSemaphore(cache, 'FL', value=1)}[kind]()
+        ctxm = mp.get_context('fork')
+        a_has, a_release, b_got = ctxm.Event(), ctxm.Event(), ctxm.Event()
+
+        def child_a():
+            obj.acquire()
+            a_has.set()
+            a_release.wait(20)
+            obj.release()
+            os._exit(0)
+
+        def child_b():
+            obj.acquire()
+            b_got.set()
+            obj.release()
+            os._exit(0)
+        pa = ctxm.Process(target=child_a)
+        pa.start()
+        if not a_has.wait(20):
+            pa.kill()
+            cache.close()
+            continue
+        pb = ctxm.Process(target=child_b)
+        pb.start()
+        overlapped = b_got.wait(0.6)
+        checked += 1
+        if overlapped:
+            res.violations.append(fw.Violation('exclusion', 'forked process B acquired the %s while forked process A was holding it (object built before the fork)' % kind,
+                                               {'check': 'forked-holders', 'kind': kind}))
+        a_release.set()
+        pa.join(10)
+        pb.join(10)
+        for p_ in (pa, pb):
+            if p_.is_alive():
+                p_.kill()
+        res.count(['forked', kind], nontrivial=True)
+        cache.close()
+    res.extra['forked_holder_checks'] = checked
+
+
 def base_hist():
     return {'contenders': {}, 'variant': {}, 'kind': {}, 'atomic_steps': {}, 'contention': 0, 'max_holders': 0}
 
@@ -653,6 +705,7 @@ def run(ctx):
     res.extra['histogram_atomic_steps_bucketed_by_5'] = {str(k): v for k, v in sorted(hist['atomic_steps'].items())}
     res.extra['runs_with_contention'] = hist['contention']
     res.extra['max_simultaneous_holders_seen'] = hist['max_holders']
+    forked_holders(ctx, res)
     if not ctx.quick:
         process_soak(ctx, res)
     return res
@@ -666,6 +719,7 @@ def search(ctx, broken):
         cases += list(enum_cases(kind, value, 8))
     cases += [gen_case(ctx.rng) for _ in range(300)]
     run_cases(ctx, res, cases, hist, correspond=False)
+    forked_holders(ctx, res)
     return res
 
 
